@@ -121,9 +121,7 @@ def graph (r : Registry) : Option Graph :=
 
 /-- No two identity statements of the schema define the same vertex (RFC 7950 §7.18: identity
 names are unique within a module and its submodules; module names are unique). -/
-def OneStatementPerVertex (r : Registry) : Prop :=
-  ∀ ps, parts r = some ps → ∀ m1 ∈ ps, ∀ m2 ∈ ps, ∀ vs1 ∈ vertexStmts r m1, ∀ vs2 ∈ vertexStmts r m2,
-    vs1.1 = vs2.1 → m1 = m2 ∧ vs1.2 = vs2.2
+def OneStatementPerVertex (G : Graph) : Prop := G.verts.Nodup
 
 /-! ### Derivation -/
 
